@@ -131,8 +131,11 @@ def eval_case(case):
             obj = B.build(spec)
         elif case["mode"] == "live":
             parent = spec_of({"seed": case["seed"], "edits": case["edits"][:-1]})
-            obj = B.build(parent)
-            used_text = obj.dumps()
+            try:
+                obj = B.build(parent)
+                used_text = obj.dumps()
+            except (ValueError, TypeError) as exc:
+                return {"status": "refused", "stage": "parent", "problems": ["the state before the edit is itself refused: %s" % exc_name(exc)]}
             obj.validate()
             obj.get_variants()
             [obj.get_variants(arch=a) for a in ("x86_64", "src")]
@@ -143,7 +146,11 @@ def eval_case(case):
             parent = spec_of({"seed": case["seed"], "edits": case["edits"][:-1]})
             obj = pc.ComposeInfo()
             try:
-                obj.loads(B.build(parent).dumps())
+                try:
+                    parent_text = B.build(parent).dumps()
+                except (ValueError, TypeError) as exc:
+                    return {"status": "refused", "stage": "parent", "problems": ["the state before the edit is itself refused: %s" % exc_name(exc)]}
+                obj.loads(parent_text)
             except (ValueError, TypeError):
                 raise
             except Exception as exc:                                    # noqa
@@ -186,7 +193,7 @@ def run_unit(unit, acc):
             tag = {"scratch": "cycle", "reloaded": "reloaded-start", "live": "edit-after-write"}[mode]
             if mode == "scratch":
                 scratch_status = o["status"]
-            if o["status"] == "refused" and mode != "scratch" and scratch_status != "refused":
+            if o["status"] == "refused" and mode != "scratch" and scratch_status != "refused" and o.get("stage") != "parent":
                 # the very same description is written when it is built from scratch: reached another way it must be writable too
                 o = {"status": "bad", "problems": ["the description is written when built from scratch, but refused when reached through "
                                                     "%s: %s" % ("a re-read object" if mode == "reloaded" else "an object that had been written before", "; ".join(o["problems"]))]}
